@@ -5,7 +5,7 @@ PROPS["C17"] = dict(
               "geometries (a second alphabet with Grow of the live buffer and reopens on more / fewer bytes), a sparse Buffer backend for "
               "gigabyte-sized segments and for allocators of more than 2^24 blocks that start full (headers preset to the bytes the allocator "
               "itself leaves in a full segment), constructor grid over valid/invalid block sizes, memory-mapped-file backend with close + map again, "
-              "race-detector stress with an atomic owner table",
+              "race-detector stress with an atomic owner table, fault injection at every storage call site with the library's error vocabulary",
     rule="case = (block size, segments, oversize bytes, fit, backend inmem|mmap|sparse, segments whose header is preset to full, op list over "
          "Arrange / fill / Free(allocated | free | out of range | negative) / drain / Block+stamp / Block out of range / Reopen-and-continue "
          "(on the same bytes; mmap: mapped again with size -1 or the explicit size; on the bytes followed by zero bytes up to one more byte or page, "
@@ -36,7 +36,18 @@ PROPS["C17"] = dict(
          "Available() begin when it has returned; ParkSeg/ParkOps = the same with the interleaving forced through the storage: the Buffer is a wrapper around the in-memory one, the workers are held between two rounds, and if "
          "the first Available() call reads the header of a segment >= ParkSeg from the Buffer that read is parked until the workers, let go at that moment, have completed 1..16 more calls - an Available() that does not touch the "
          "storage is not parked). Oracle as before and schedule independent: owner table, stamps, Available() within [Count-G*hold, Count] whenever observed (including the first call), and at quiescence Available() == "
-         "Count - blocks held, and an allocator opened on a copy of the bytes agrees (Available, allocated set by probing); non-trivial = a freed index was handed out again "
+         "Count - blocks held, and an allocator opened on a copy of the bytes agrees (Available, allocated set by probing); "
+         "failing-storage cases (unit fault) = (block size 1..64, 1-3 segments, fit/oversize, in memory behind a wrapper of the harness, op list over ArrangeBlock / runs of ArrangeBlock up to exhaustion / "
+         "FreeBlock(allocated | free | out of range | negative) / free everything / Block in and out of range / NewBlocks again on the same storage / Close then open the saved bytes / Bytes().Grow by a byte or a segment, "
+         "where an op may carry a fault: the At-th storage call that can fail (Buffer, Grow, Close) made during the op and the Len-1 following ones return an error drawn from the whole vocabulary - each of the 12 sentinels of "
+         "/repo/errors (ErrInvalid, ErrNotExist, ErrExist, ErrExhausted, ErrClosed, ErrInternal, ...), io and context errors, errno values (some of which errors.Is maps to a sentinel), gRPC status errors that the library's "
+         "errors.Is maps to ErrExhausted / ErrInvalid / ErrNotExist or to none, an opaque errors.New - in 7 shapes (bare, %w once and twice, errors.Join, two %w verbs, a custom type with Unwrap, *fs.PathError), so that every site "
+         "is hit: the first, second, later header fetch of ArrangeBlock, the header fetch of FreeBlock, the block fetch of Block, the n-th header fetch of NewBlocks, Close, Grow); a grid runs every error x shape x 18 call "
+         "kinds x 6 allocator states (fresh, first segment full, full, full with a hole, ...) on one (thorough: three) tiny geometries, rapid draws lists of up to 40 ops. Oracle of a faulted call: ArrangeBlock must not report ErrExhausted "
+         "while the model has free blocks unless the injected error itself is of the ErrExhausted class (then the claim is the storage's own); a call that reports success is held to the ordinary checks (index free in the "
+         "model, block at its place, Count/Available of a reopened allocator); an error returned by a call during which the storage failed must be the storage's (errors.Is the injected value; ErrExhausted with nothing free and "
+         "the verdicts FreeBlock owes for free / out-of-range indexes are accepted too); after every op Count, Available, every stamped user block and the allocated set recovered by a second allocator from a copy of the bytes "
+         "equal the model, in which a failed call changes nothing; a failed call does not end the case; non-trivial = a failing-storage case in which >= 1 injected fault was reached, or a freed index was handed out again "
          "while another segment holds allocated blocks, or a continuing reopen with >= 1 allocated block, or ArrangeBlock hit the full "
          "allocator, or the constructor had to reject the geometry, or ArrangeBlock succeeded after a Grow on the same allocator, or a reopen "
          "on more bytes with >= 1 allocated block, or the last free block of more than 2^24 was handed out, or a concurrent case; distinct = FNV hash of the case. Excluded: "
@@ -51,6 +62,9 @@ PROPS["C17"] = dict(
                  "preset headers: the header bytes of a full segment are taken from a one-segment allocator of the same block size that handed out all its blocks, and copied into the headers of other segments; this relies on the documented layout (each segment starts with its own header describing its bs*8 blocks) being position independent; the thorough tier reaches the same state call by call, and small geometries run every probe on preset states",
                  "prefix probe: an allocator on the leading k whole segments of the bytes sees exactly the state of these segments (documented layout: the header is the first block of each segment)",
                  "Grow: Buffer.Grow is documented without restriction, Blocks.Bytes() hands the buffer out and NewBlocks documents that the buffer may be larger than needed (fit=false), so growing the buffer of a live allocator is taken as supported; asserted afterwards is only what the statement says (results against the model, state recoverable from the bytes); the statement's first sentence does not name Grow (borderline)",
+                 "failing storage: Buffer is an interface whose methods return errors, so a storage may fail at any call with any error; the statement's 'ErrExhausted exactly when nothing is free' is applied to such calls with one exception: "
+                 "when the storage's own error is of the ErrExhausted class, passing it on is not a claim of the allocator. That an error of the storage is passed on (errors.Is) is what the code does at every site and what "
+                 "Block documents ('or access to the block is not possible'); the statement itself only supports the ErrExhausted part and the unchanged / recoverable state (signature blocks:storage-error-replaced marks the weaker-founded part)",
                  "the concurrent oracle is schedule independent (owner table, bounds on Available, quiescent state); a report of the race detector is attributed to the case through a subtest",
                  "Available() is documented without precondition ('returns number of free blocks'), so its first call may come at any time, also while other goroutines allocate and free; a Buffer may be slow at any call and its "
                  "documentation allows concurrent requests for non-overlapping ranges, so a wrapper that delays one header read is a legitimate storage (the harness already passes its own Buffer implementations: sparse, mmap)"],
@@ -62,7 +76,7 @@ PROPS["C17"] = dict(
         dict(name="concurrent", run="^TestC17Concurrent$", shards=(2, 16), timeout=(200, 1500), race=True),
         dict(name="sparse", run="^TestC17Sparse$", checks=(150, 1200), shards=(2, 8), timeout=(200, 1500)),
         dict(name="huge", run="^TestC17Huge$", checks=(40, 300), shards=(2, 8), timeout=(200, 1500)),
-        dict(name="fault", run="^TestC17Fault$", checks=(1500, 12000), shards=(2, 8), timeout=(200, 1500)),
+        dict(name="fault", run="^TestC17Fault$", checks=(1500, 6000), shards=(2, 6), timeout=(200, 1500)),
         dict(name="big", run="^TestC17Big$", checks=(1, 12), shards=(1, 4), timeout=(200, 1500), enabled=(False, True)),
     ],
 )
@@ -76,5 +90,5 @@ LEVEL_TEXT["C17"] = (
     "operation a second allocator is opened on a copy of the bytes and its allocated set, recovered by probing, is compared with "
     "the model; block byte ranges are located by pointer arithmetic and checked against each other and the headers; the constructor "
     "is tried on a grid of valid and invalid geometries; 2-8 goroutines allocate and free under the race detector with an owner "
-    "table, also on freshly reopened multi-segment allocators whose first Available() call is made while they run (free running, and with a header read parked by the storage). No counterexample among the cases counted in the evidence; not a proof for longer sequences, other schedules or larger geometries."
+    "table, also on freshly reopened multi-segment allocators whose first Available() call is made while they run (free running, and with a header read parked by the storage); a storage that fails at any single call site of any operation with any error class and shape of the library's vocabulary (grid plus random lists) must not make the allocator claim exhaustion, lose the error or change its state. No counterexample among the cases counted in the evidence; not a proof for longer sequences, other schedules or larger geometries."
 )
